@@ -105,6 +105,38 @@ def explore_singleton(run, n_random):
         run.case(cj, nontrivial=True)
 
 
+def explore_singleton_kinds(run):
+    """sequential: the decorated class may be anything - instances that are falsy (empty containers, __bool__ False, __len__ 0),
+    that compare equal to None-like values, that take constructor arguments: every request returns the first object"""
+    class Falsy:
+        def __bool__(self):
+            return False
+
+    class Empty(dict):
+        pass
+
+    class Sized:
+        def __len__(self):
+            return 0
+
+    class Plain:
+        pass
+    for cls in (Falsy, Empty, Sized, Plain):
+        dec = msing.SingletonDecorator(cls)
+        objs = [dec() for _ in range(3)]
+        if isinstance(objs[0], dict):
+            objs[0]["k"] = 1
+            objs[0].clear()            # emptied in place: still the one shared instance
+            objs.append(dec())
+        cj = {"what": "singleton-kinds", "class": cls.__name__}
+        run.count("singleton of a class whose instances are %s" % ("falsy" if cls is not Plain else "ordinary"))
+        run.traces_validated += 1
+        if any(o is not objs[0] for o in objs):
+            run.violate("C30/second-instance", "SingletonDecorator(%s): %d requests returned %d different objects (instances of this class are "
+                        "falsy)" % (cls.__name__, len(objs), len(set(id(o) for o in objs))), cj)
+        run.case(cj, nontrivial=True)
+
+
 def singleton_oracle(run, rets, errors, cj):
     if errors:
         run.violate("C30/error", "a thread failed: %s" % errors[:2], cj)
@@ -204,6 +236,46 @@ def explore_registry(run, n_random):
         run.count("registry opcode-level runs")
         registry_oracle(run, before, after, reg, errors, cj, set(x for p in progs for x in p))
         run.case(cj, nontrivial=True)
+    # lock-free readers racing registration: a number read from the registry is bound to its name for name_for_signal too
+    for _ in range(n_random):
+        saved = getattr(mevent, "_registry_lock", None)
+        if saved is not None:
+            mevent._registry_lock = dsched.DRLock()
+        try:
+            reg = mevent.SignalSource()
+            names = ["N%d" % k for k in range(1, rng.randint(2, 4))]
+            bad = []
+
+            def writer():
+                for nm in names:
+                    reg.append(nm)
+
+            def reader():
+                for _ in range(8):
+                    for nm in names:
+                        dsched.cur().yield_point("reader.poll")      # a scheduling point of its own: it polls while the writer works
+                        num = reg.get(nm)
+                        if num is not None:
+                            try:
+                                back = reg.name_for_signal(num)
+                            except Exception as ex:  # noqa
+                                back = "%s: %s" % (type(ex).__name__, ex)
+                            if back != nm:
+                                bad.append((nm, num, back))
+            codes = [c for c in class_codes(mevent.SignalSource) if c.co_name not in ("__init__",)]
+            seed = rng.randrange(1 << 30)
+            order, errors, outcome, fin = run_threads([writer, reader], dsched.random_chooser(random.Random(seed)), codes)
+        finally:
+            if saved is not None:
+                mevent._registry_lock = saved
+        cj = {"what": "registry-reader", "names": names, "seed": seed, "schedule": order}
+        run.count("lock-free reader racing registration")
+        if errors:
+            run.violate("C25/error", "a thread failed: %s" % errors[:2], cj)
+        if bad:
+            run.violate("C25/name_for_signal", "while another thread registers %s: the registry gives %s the number %s, and name_for_signal(%s) "
+                        "answers %r" % (names, bad[0][0], bad[0][1], bad[0][1], bad[0][2]), cj)
+        run.case(cj, nontrivial=True)
     # Event construction racing registration (global registry; fresh names per run)
     for k in range(max(1, n_random // 4)):
         tag = "R%d_%d_" % (run.seed, rng.randrange(1 << 30))
@@ -271,6 +343,21 @@ def explore_registry(run, n_random):
 # ---------------------------------------------------------------------------
 # C27 / C29 thread-safe attributes
 # ---------------------------------------------------------------------------
+
+def make_delegating_class():
+    """instances forward unknown attribute names to a parent instance (a common wrapper / prototype pattern)"""
+    class Obj(metaclass=mtsa.MetaThreadSafeAttributes):
+        _attributes = ["x"]
+
+        def __init__(self, parent=None):
+            self.parent = parent
+
+        def __getattr__(self, name):
+            if name.startswith("__") or self.__dict__.get("parent") is None:
+                raise AttributeError(name)
+            return getattr(self.__dict__["parent"], name)
+    return Obj
+
 
 def make_tsa_class(by_value=False):
     class Obj(metaclass=mtsa.MetaThreadSafeAttributes):
@@ -424,14 +511,16 @@ def explore_instances(run, n_random):
     rng = run.rng
     for _ in range(n_random):
         by_value = rng.random() < 0.4
-        Obj = make_tsa_class(by_value)
-        run.count("instances compare %s" % ("by value (all equal)" if by_value else "by identity"))
+        delegating = not by_value and rng.random() < 0.3
+        Obj = make_delegating_class() if delegating else make_tsa_class(by_value)
+        run.count("instances %s" % ("forward unknown attributes to the first instance (__getattr__)" if delegating else
+                                    ("compare by value (all equal)" if by_value else "compare by identity")))
         insts, model = [], {}
         ops = []
         for _ in range(rng.randint(3, 12)):
             r = rng.random()
             if r < 0.3 or not insts:
-                insts.append(Obj())
+                insts.append(Obj(insts[0]) if (delegating and insts) else Obj())
                 ops.append(("new",))
                 got = insts[-1].x
                 if got != 0:
@@ -451,6 +540,64 @@ def explore_instances(run, n_random):
                                 % (i, got, model.get(i, 0)), {"what": "instances", "ops": ops})
         run.traces_validated += 1
         run.case({"what": "instances", "ops": ops}, nontrivial=len(insts) >= 2)
+
+
+def explore_tsa_operators(run, n_random):
+    """C27 for every augmented-assignment operator: two or three threads each apply one or two `o.x OP= d` statements to the
+    same attribute, bytecode-level interleaving; the final value is the result of some serial order"""
+    rng = run.rng
+    ops = list(tsa_stmts.AUG_OPS)
+    for _ in range(n_random):
+        v0 = rng.choice([64, 48, 7, 100])
+        nt = rng.randint(2, 3)
+        progs = []
+        # true division makes the value a float: keep it away from the integer-only operators within one case
+        group = rng.choice([["+=", "-=", "*=", "/=", "//=", "%=", "**=", "/="], ["+=", "-=", "*=", "//=", "%=", ">>=", "<<=", "&=", "^=", "|="]])
+        for _ in range(nt):
+            p = []
+            for _ in range(rng.randint(1, 2)):
+                op = rng.choice(group)
+                d = rng.choice([1, 2, 3]) if op in ("**=", ">>=", "<<=") else rng.choice([2, 3, 5, 8])
+                p.append((op, d))
+            progs.append(p)
+        serial = set()
+
+        def rec(pos, v):
+            if all(pos[i] == len(progs[i]) for i in range(nt)):
+                serial.add(v)
+                return
+            for i in range(nt):
+                if pos[i] < len(progs[i]):
+                    op, d = progs[i][pos[i]]
+                    pos[i] += 1
+                    rec(pos, tsa_stmts.AUG_OPS[op][1](v, d))
+                    pos[i] -= 1
+        rec([0] * nt, v0)
+        with dsched.PatchedLocks(mtsa):
+            Obj = make_tsa_class()
+            o = Obj()
+            o.x = v0
+
+            def mk(p):
+                def f():
+                    for op, d in p:
+                        tsa_stmts.AUG_OPS[op][0](o, d)
+                return f
+            codes = [c for c in class_codes(mtsa.ThreadSafeAttribute) if c.co_name not in ("__init__", "__set_name__")]
+            seed = rng.randrange(1 << 30)
+            order, errors, outcome, fin = run_threads([mk(p) for p in progs], dsched.random_chooser(random.Random(seed)), codes)
+            val = o.x
+        cj = {"what": "tsa-operators", "v0": v0, "progs": progs, "seed": seed, "schedule": order}
+        for p in progs:
+            for op, _ in p:
+                run.count("augmented operator " + op)
+        run.traces_validated += 1
+        if errors:
+            run.violate("C27/error", "a statement using the attribute failed: %s" % errors[:2], cj)
+        elif all(fin) and val not in serial:
+            run.violate("C27/not-serializable", "from %r, threads %s: final value %r is not the result of any serial order (possible: %s)"
+                        % (v0, progs, val, sorted(serial, key=repr)[:6]), cj)
+        run.case(cj, nontrivial=True)
 
 
 def explore_instances_threads(run, n_random):
